@@ -23,6 +23,9 @@ pub struct Case {
     /// a `log tail --stdout --stderr` listener is attached during the run
     #[serde(default)]
     pub listener: bool,
+    /// every target resolves each command to one shared script through `commands.definitions`
+    #[serde(default)]
+    pub shared_exe: bool,
 }
 
 pub fn strategy(max_n: usize) -> impl Strategy<Value = Case> {
@@ -42,8 +45,9 @@ pub fn strategy(max_n: usize) -> impl Strategy<Value = Case> {
         any::<u16>(),
         proptest::sample::select(vec![1usize, 2, 4, 16]),
         proptest::bool::weighted(0.3),
+        proptest::bool::weighted(0.3),
     )
-        .prop_map(|(n, before, after, small, picks, ncmd, bc, gp, tw, listener)| {
+        .prop_map(|(n, before, after, small, picks, ncmd, bc, gp, tw, listener, shared_exe)| {
             let mut layers = vec![];
             for i in 0..before {
                 layers.push(small[i % small.len()]);
@@ -60,12 +64,21 @@ pub fn strategy(max_n: usize) -> impl Strategy<Value = Case> {
                 group_pick: gp,
                 tokio_workers: tw,
                 listener,
+                shared_exe,
             }
         })
 }
 
 fn attempt(case: &Case, w: usize, timeout_ms: u64) -> Result<(bool, CaseInfo, Value), CheckError> {
-    let cfg = &case.config;
+    let mut cfg_owned = case.config.clone();
+    if case.shared_exe {
+        for t in cfg_owned.targets.iter_mut() {
+            for k in 0..case.ncmd {
+                t.command_defs.insert(format!("c{}", k), format!("tools/shared/c{}.sh", k));
+            }
+        }
+    }
+    let cfg = &cfg_owned;
     let mut env = Env::new(w);
     env.extra_env.push(("TOKIO_WORKER_THREADS".into(), case.tokio_workers.to_string()));
     env.install_config(cfg);
@@ -93,7 +106,17 @@ fn attempt(case: &Case, w: usize, timeout_ms: u64) -> Result<(bool, CaseInfo, Va
             beh.insert((c.clone(), t.path.clone()), b);
         }
     }
-    bb::install_simple(&env, cfg, &beh);
+    if case.shared_exe {
+        let mut plan = BTreeMap::new();
+        for ((c, t), b) in &beh {
+            let f = format!("tools/shared/{}.sh", c);
+            env.install_command(&f, true);
+            plan.insert((f, t.clone()), b.clone());
+        }
+        env.set_plan(&plan);
+    } else {
+        bb::install_simple(&env, cfg, &beh);
+    }
     let mut args: Vec<&str> = vec!["run", "-c"];
     for c in &commands {
         args.push(c);
@@ -132,6 +155,7 @@ fn attempt(case: &Case, w: usize, timeout_ms: u64) -> Result<(bool, CaseInfo, Va
         .class(&format!("command#{}", case.barrier_cmd))
         .class(&format!("tokio-workers={}", case.tokio_workers))
         .class_if(case.listener, "tail-listener-attached")
+        .class_if(case.shared_exe, "shared-executable")
         .inv(env.invocations);
     let obs = json!({"group": members, "timeouts": timeouts, "run": out.brief()});
     if out.timed_out || !timeouts.is_empty() {
@@ -179,7 +203,7 @@ pub fn run(ctx: &mut Ctx) {
     ctx.hang_limit = std::time::Duration::from_secs(600);
     ctx.shrink_budget = std::time::Duration::from_secs(1);
     ctx.rule = "layered configuration with one layer of n mutually independent targets (n in 2..24, and the size boundaries 31-34 and 63-66; thorough: up to 130) placed first / in the middle / last, \
-1-3 commands, tokio worker threads in {1,2,4,16}, 30% with a `log tail` listener attached; the groups are read from `analyze --target-groups`, one group of size >= 2 is chosen and all its members run the helper in \
+1-3 commands, tokio worker threads in {1,2,4,16}, 30% with a `log tail` listener attached, 30% with one script shared by all targets through commands.definitions; the groups are read from `analyze --target-groups`, one group of size >= 2 is chosen and all its members run the helper in \
 barrier mode (wait until all members have started) under the 1st-3rd command. oracle: run exits 0, every member started, no barrier time-out (20 s, confirmed with 40 s). \
 non-trivial = group size >= 3; distinct by SHA-256"
         .to_string();
